@@ -545,6 +545,59 @@ func mkResults(r *hx.Rand, n int, named string) []param {
 	return rs
 }
 
+// pickNames draws n names for one parameter or result list from a pool: either no name at all (one time in
+// six, if allowed) or names of which those that can be referred to are pairwise distinct and not in avoid
+// (`_` may repeat). The pool contains `_`, so the loop ends.
+func pickNames(r *hx.Rand, n int, pool []string, avoid map[string]bool, unnamedOK bool) []string {
+	out := make([]string, 0, n)
+	if unnamedOK && r.Intn(6) == 0 {
+		for len(out) < n {
+			out = append(out, "")
+		}
+		return out
+	}
+	used := map[string]bool{}
+	for len(out) < n {
+		c := pool[r.Intn(len(pool))]
+		if c != "_" && (used[c] || avoid[c]) {
+			continue
+		}
+		used[c] = true
+		out = append(out, c)
+	}
+	return out
+}
+
+func nameSet(l ...[]string) map[string]bool {
+	m := map[string]bool{}
+	for _, ns := range l {
+		for _, n := range ns {
+			m[n] = true
+		}
+	}
+	return m
+}
+
+// pools of the "combo" shapes: every cause of a renaming (blank, unnamed, the wrapper's own name and the names it
+// falls back to, the names the renaming makes up and falls back to, a name of the other level) can meet every other
+var (
+	comboParams  = []string{"a", "b", "c", "d", "e", "_", "_", "f", "f_", "f__", "param_0", "param_1", "param_0_", "param_2", "param_1_"}
+	comboOuter   = []string{"a", "b", "_", "_", "f", "f_", "param_0", "param_0_", "innerParam_0", "innerParam_1"}
+	comboInner   = []string{"a", "b", "c", "d", "_", "_", "f", "f_", "param_0", "param_0_", "param_0__", "innerParam_0", "innerParam_1", "innerParam_0_"}
+	comboResults = []string{"r0", "r1", "a", "b", "f", "f_", "f__", "param_0", "param_0_", "param_1", "innerParam_0", "innerParam_1", "_"}
+)
+
+func comboResultList(r *hx.Rand, avoid map[string]bool) []param {
+	n := r.Intn(4)
+	rs := mkResults(r, n, "")
+	if n > 0 && r.Intn(3) != 0 {
+		for i, name := range pickNames(r, n, comboResults, avoid, false) {
+			rs[i].name = name
+		}
+	}
+	return rs
+}
+
 type uncurryMode struct {
 	name         string
 	outer, inner func(r *hx.Rand, n int) []string
@@ -706,6 +759,27 @@ func genShapes(r *hx.Rand, tier string) []*shape {
 			if plugin == "curry" || (plugin == "flip" && n >= 3) {
 				add(&shape{plugin: plugin, mode: "variadic", outer: mkParams(nameParams(r, "named", n), typeParams(r, "mixed", n)), results: mkResults(r, 1, ""), variadic: true})
 			}
+		}
+	}
+	// combinations: parameter and result names drawn independently from pools of all troublesome names
+	ncombo := 6
+	if tier == "thorough" {
+		ncombo = 30
+	}
+	for _, plugin := range []string{"curry", "flip", "apply", "rt"} {
+		for n := 2; n <= maxN; n++ {
+			for k := 0; k < ncombo; k++ {
+				ps := pickNames(r, n, comboParams, nil, true)
+				add(&shape{plugin: plugin, mode: "combo", outer: mkParams(ps, typeParams(r, typeKinds[k%2], n)), results: comboResultList(r, nameSet(ps))})
+			}
+		}
+	}
+	for nin := 1; nin <= maxN-1; nin++ {
+		for k := 0; k < 3*ncombo; k++ {
+			in := pickNames(r, nin, comboInner, nil, true)
+			out := pickNames(r, 1, comboOuter, nil, true)
+			cs := typeParams(r, typeKinds[k%2], 1+nin)
+			add(&shape{plugin: "uncurry", mode: "combo", outer: mkParams(out, cs[:1]), inner: mkParams(in, cs[1:]), results: comboResultList(r, nameSet(in))})
 		}
 	}
 	// apply also accepts a single parameter (outside the 2..5 of the property, inside the model)
